@@ -243,7 +243,8 @@ def runAll (start : Nat) : Nat → State → List HOp → List Json → List Jso
       | .edit op given =>
         obs s' (match (stepS s op given).2 with | .ok () => .str "ok" | .error e => errClass e) .null
       | .ask q =>
-        (obs s' (.str "ok") (ansJ q (query s q).2)).setObjVal! "fresh" (ansJ q (freshAnswer s.sigs s.content q))
+        ((obs s' (.str "ok") (ansJ q (query s q).2)).setObjVal! "fresh" (ansJ q (freshAnswer s.sigs s.content q))
+          ).setObjVal! "entry" (.str q.entry)
       | .fork => obs s' (.str "ok") .null
     -- after the last op: the model built from scratch by `rebuild` (the left-hand side of `C03_refines_fresh`)
     let o := if rest.isEmpty && !(i < start) then
@@ -254,7 +255,13 @@ def runAll (start : Nat) : Nat → State → List HOp → List Json → List Jso
       else o
     runAll start (i + 1) s' rest (if i < start then acc else o :: acc)
 
+/-- the lists the surface theorems are about (`C03_table_mutators`, `C03_table_surface`) -/
+def listsJ : Json :=
+  Json.mkObj [("mutators", strsJ (Gen.Mut.all.map fun m => (reprStr m).replace "Mxl.C03.Gen.Mut." "")),
+              ("modelled", strsJ modelledEntries), ("out", strsJ (outOfScope.map (·.1)))]
+
 def handle (j : Json) : Except String Json := do
+  if (j.getObjVal? "lists").isOk then return listsJ
   let ops ← jList jHOp (← field j "ops")
   let start ← match j.getObjVal? "from" with
     | .ok v => jNat v
